@@ -598,7 +598,14 @@ func (s *Service) truncate(ctx context.Context, jrnl journal.Journal, tp *Trunca
 		return 0, 0, errors.Wrapf(err, "truncate(): could not read list of chunks for %s", jrnl.Name())
 	}
 
-	size := jrnl.Size()
+	// one snapshot of the chunk sizes for both the total and the loops: a write confirmed in between
+	// must not make size-sizes[idx] wrap around
+	sizes := make([]uint64, len(cks))
+	size := uint64(0)
+	for i, c := range cks {
+		sizes[i] = uint64(c.Size())
+		size += sizes[i]
+	}
 	verifhook.At("partition.truncate.sized")
 	isize := size
 	idx := 0
@@ -606,16 +613,16 @@ func (s *Service) truncate(ctx context.Context, jrnl journal.Journal, tp *Trunca
 
 	// first cut by the size, idx is exclusive
 	if tp.MaxSrcSize > 0 && tp.MaxSrcSize > tp.MinSrcSize {
-		for ; idx < len(cks) && size > tp.MaxSrcSize && size-uint64(cks[idx].Size()) >= tp.MinSrcSize; idx++ {
-			size -= uint64(cks[idx].Size())
+		for ; idx < len(cks) && size > tp.MaxSrcSize && size-sizes[idx] >= tp.MinSrcSize; idx++ {
+			size -= sizes[idx]
 		}
 	}
 	s.logger.Debug("After checking size first ", idx, " chunks considered to be removed. New size=", size)
 
 	if tp.OldestTs > 0 && idx < len(cks) {
 		sc := s.TsIndexer.SyncChunks(ctx, jrnl.Name(), cks)
-		for ; idx < len(sc) && sc[idx].MaxTs < tp.OldestTs && size-uint64(cks[idx].Size()) >= tp.MinSrcSize; idx++ {
-			size -= uint64(cks[idx].Size())
+		for ; idx < len(sc) && sc[idx].MaxTs < tp.OldestTs && size-sizes[idx] >= tp.MinSrcSize; idx++ {
+			size -= sizes[idx]
 		}
 	}
 	s.logger.Debug("After checking records' time, first ", idx, " chunks considered to be removed. New size=", size)
